@@ -49,7 +49,7 @@ ASSUMPTIONS = [
 CASES = {'quick': 2400, 'thorough': 40000}
 TIME = {'quick': 70, 'thorough': 540}
 MIN_NONTRIVIAL = {'quick': 1000, 'thorough': 2500}
-REQUIRED = ('range_forms_checked', 'range_plus_forms', 'range_interval_forms',
+REQUIRED = ('resplit_deals_compared', 'range_forms_checked', 'range_plus_forms', 'range_interval_forms',
             'full_deals_checked', 'hilo_deals', 'no_low_deals',
             'engine_showdowns_compared', 'partial_deals_checked',
             'icm_vectors_checked', 'icm_reference_compared',
@@ -398,6 +398,37 @@ def check_equities(res, rng):
             f'{[str(e) for e in exp]} for {payload}', payload)
     res.sigs.add(sig('equity', hts, n, tuple(round(x, 6)
                                              for x in results[0])))
+    if board and rng.random() < 0.35:
+        # the same cards split differently: one player's hole card changes
+        # places with a board card (for Omaha / Greek hands which cards are
+        # in the hole matters; an answer remembered by the set of cards
+        # would be stale)
+        i = rng.randrange(n)
+        j, k = rng.randrange(hole_n), rng.randrange(board_n)
+        h2 = list(holes[i])
+        b2 = list(board)
+        h2[j], b2[k] = b2[k], h2[j]
+        holes2 = list(holes)
+        holes2[i] = tuple(h2)
+        board2 = tuple(b2)
+        payload2 = dict(payload, holes=[text(h) for h in holes2],
+                        board=text(board2))
+        try:
+            eq2 = calculate_equities(
+                [[h] for h in holes2], board2, hole_n, board_n, Deck[deck],
+                hand_types, sample_count=1)
+            exp2 = engine_split(hts, deck, holes2, board2, n)
+        except Exception as exc:   # noqa: BLE001
+            res.counters['resplit_failed'] += 1
+            return
+        res.counters['resplit_deals_compared'] += 1
+        if any(abs(float(e) - g) > 1e-9 for e, g in zip(exp2, eq2)):
+            res.violation(
+                f'after the same cards were evaluated with another split '
+                f'(hole card {h2[j]!r} <-> board card {b2[k]!r} of player '
+                f'{i}): equities {eq2} differ from the split the engine '
+                f'pays {[str(e) for e in exp2]} for {payload2} (first deal '
+                f'{payload})', payload2)
 
 
 def exact_shares(hand_types, holes, board):
